@@ -50,6 +50,7 @@ int read_hex(const char *filename, Memory *memory)
   int checksum_calc;
   int n;
   int start_address = 0;
+  int error = 0;
   int line = 0;
   int start, end;
   int segment = 0;
@@ -176,7 +177,7 @@ int read_hex(const char *filename, Memory *memory)
       printf("read_hex: Checksum failure on line %d!\n", line);
       fclose(in);
       in = NULL;
-      start_address = -4;
+      error = -4;
       break;
     }
 
@@ -197,7 +198,10 @@ int read_hex(const char *filename, Memory *memory)
   memory->low_address = start;
   memory->high_address = end;
 
-  return start_address;
+  // Only shown in debug output.
+  (void)start_address;
+
+  return error;
 }
 
 
